@@ -320,10 +320,26 @@ impl C15 {
                     Some(price <= up && price >= lo)
                 });
                 let long_s = if p0.long_dir { "long" } else { "short" };
+                // when nothing was rounded anywhere (reference price, both limits and the price after the whole close are exact
+                // quotients) the closed band of the statement is unambiguous, edges included
+                let band_exact = self.band.band_is_exact(vi, st.pre.height, a.fluct, d);
+                let whole_price: Option<(u128, bool)> = self.whole_quote.and_then(|q| {
+                    let (qa, ba) = if p0.long_dir { (a.q.checked_sub(q)?, a.b.checked_add(abs0)?) } else { (a.q.checked_add(q)?, a.b.checked_sub(abs0)?) };
+                    if ba == 0 {
+                        return None;
+                    }
+                    let price = Big::u(qa).mul(Big::u(d)).div(Big::u(ba)).to_u128()?;
+                    Some((price, Big::u(qa).mul(Big::u(d)).sub(Big::u(price).mul(Big::u(ba))).is_zero()))
+                });
+                let all_exact = band_exact && matches!(whole_price, Some((_, true)));
+                if all_exact && matches!(whole_price, Some((p, _)) if p == lo || p == up) {
+                    r.count("closes-whose-whole-close-lands-exactly-on-the-band-edge");
+                }
                 if path == "close_position" {
                     r.count("whole-closes-under-band");
                     r.case(format!("close-whole|{}|{}|post={}|nth={}", long_s, drift, dist_bucket(b.spot, lo, up), nth.min(3)));
-                    if b.spot > up + 1 || b.spot + 1 < lo {
+                    let edge_tol = if all_exact { 0 } else { 1 };
+                    if b.spot > up + edge_tol || b.spot + edge_tol < lo {
                         r.violation(
                             "C15",
                             "R3a-whole-close-left-band",
@@ -352,11 +368,7 @@ impl C15 {
                     }
                     if whole_inside == Some(true) {
                         // margin of one raw unit at the edge: only flag when the whole close is clearly inside
-                        let clearly = self.whole_quote.map(|q| {
-                            let (qa, ba) = if p0.long_dir { (a.q - q, a.b + abs0) } else { (a.q + q, a.b - abs0) };
-                            let price = Big::u(qa).mul(Big::u(d)).div(Big::u(ba)).to_u128().unwrap_or(0);
-                            price + 2 <= up && price >= lo + 2
-                        });
+                        let clearly = whole_price.map(|(price, _)| (price + 2 <= up && price >= lo + 2) || all_exact);
                         if clearly == Some(true) {
                             r.violation(
                                 "C15",
@@ -908,6 +920,50 @@ impl Monitor for C20 {
         for b in bad {
             let sig: String = b.chars().filter(|c| !c.is_ascii_digit()).collect();
             r.violation("C20", "R2-config-out-of-bounds", format!("R2|{}|{}", st.op.kind(), sig), b, st.seq);
+        }
+        // R5: the figure the cap is compared with must not forget exposure that is still open. A transaction lowers the
+        // engine's open interest by at most what its exposure-reducing trade took out of the market: the quote amount Q the
+        // vAMM exchanged for it or, where the engine books the position's own open notional instead, 2 x (the closed share
+        // of the open notional) - Q (whichever is larger; both bookings occur in the pinned code); a second, re-opening leg
+        // adds its quote amount. Transactions without a trade do not lower it at all. Over-counting is not reported.
+        if st.out.ok {
+            if let Some((sender, msg, _)) = engine_msg(&st.op) {
+                let swaps = swap_events(w, &st.out);
+                let subject: &str = match msg {
+                    eng::ExecuteMsg::Liquidate { trader, .. } => trader.trim(),
+                    _ => sender,
+                };
+                let (oi0, oi1) = (st.pre.eng.oi, post.eng.oi);
+                if swaps.is_empty() {
+                    r.count("R5-transactions-without-trade");
+                    if oi1 < oi0 {
+                        r.violation("C20", "R5-open-interest-forgets-open-exposure", format!("R5|no-trade|{}", st.op.kind()), format!("open interest {} -> {} in a transaction that traded nothing", oi0, oi1), st.seq);
+                    }
+                } else if let Some(vi) = st.op.engine_vamm().and_then(|a| w.vamm_idx(a.trim())) {
+                    let path = reply_path(w, &st.out);
+                    let s0 = st.pre.pos(vi, subject).map(|p| p.size).unwrap_or(0);
+                    let s1 = post.pos(vi, subject).map(|p| p.size).unwrap_or(0);
+                    let pure_increase = path == "update_position" && (s0 == 0 || ((s0 > 0) == (s1 > 0) && s1.unsigned_abs() >= s0.unsigned_abs()));
+                    if let (false, Some(p0)) = (pure_increase, st.pre.pos(vi, subject).filter(|p| p.size != 0)) {
+                        let first = &swaps[0];
+                        let abs0 = p0.size.unsigned_abs();
+                        let share = Big::u(p0.notional).mul(Big::u(first.base.min(abs0))).div(Big::u(abs0)).to_u128().unwrap_or(u128::MAX);
+                        let allowed = first.quote.max(share.saturating_mul(2).saturating_sub(first.quote)).saturating_add(2);
+                        let credit = if swaps.len() > 1 { swaps[1].quote } else { 0 };
+                        let floor = oi0.saturating_sub(allowed).saturating_add(credit);
+                        r.count("R5-exposure-reducing-trades");
+                        if oi1 < floor {
+                            r.violation(
+                                "C20",
+                                "R5-open-interest-forgets-open-exposure",
+                                format!("R5|oi-delta|{}", path),
+                                format!("open interest {} -> {} although the trade took only {} quote out of the market (closed share of the open notional {}, re-opened {})", oi0, oi1, first.quote, share, credit),
+                                st.seq,
+                            );
+                        }
+                    }
+                }
+            }
         }
         // R1 caps
         let Some((sender, eng::ExecuteMsg::OpenPosition { vamm, .. }, _)) = engine_msg(&st.op) else { return };
